@@ -8,7 +8,13 @@ Monitor (the property itself, on the implementation, harness bin `c02`):
   (b) for each of the 8 one-extension families, under every set lacking the extension: one result,
       no error, and it is the core reading computed by the generator (checks/c02_gen.py).
 Correspondence: L-lex/L-ev of Model/Lexer.v + Model/Parser.v under all 192 sets (each input under
-a rotating sample of 8).  Theorems: coq/Properties/C02.v."""
+a rotating sample of 8).  Theorems: coq/Properties/C02.v.
+
+Every run REGENERATES coq/Gen/GateSites.v from the non-test code of /repo/src/**/*.rs (gen/gen_gates.py): the
+inventory of the places where an Extensions value is consulted, handed on, declared or constructed, pinned by
+the obligation C02_gate_inventory and mapped row by row to the gates of the models (Model/GateMap.v,
+C02_gate_inventory_mapped, C02_gate_table_checks).  A gate that is added, removed or edited (another flag)
+breaks the obligations and is reported entry by entry with its location; moving code does not."""
 import itertools
 import json
 import os
@@ -23,6 +29,7 @@ from checks import parser_common as pc
 from checks import c02_gen as cg
 
 import grec  # noqa: E402  (path set by c02_gen)
+import gen_gates  # noqa: E402  (gen/ is on the path: c02_gen)
 
 PID = "C02"
 ALPHA = ["a", "1", " ", "\n", "@", "~", "{", "}", "%", "(", ")", ":", ">", "=", ".", "/"]
@@ -213,8 +220,41 @@ def canon_of(r, which="first"):
     return json.loads(r[which][1])
 
 
+def gate_inventory():
+    """regenerate Gen/GateSites.v and compare with the list in the statement of C02_gate_inventory;
+    -> (stats for the evidence, None or (what, replay dict))"""
+    inv = gen_gates.regenerate()
+    expected = gen_gates.expected_sites()
+    new, gone = gen_gates.diff(inv["items"], expected)
+    items = inv["items"]
+    gates = [it for it in items if it["kind"] in ("E", "L", "U") and any(not f.endswith("()") for f in it["flags"])]
+    st = {"sites": len(items), "expected": None if expected is None else len(expected),
+          "file_rewritten": inv["changed"], "new": new, "gone": gone,
+          "by_kind": dict(sorted(Counter(it["kind"] for it in items).items())),
+          "kinds": "B bitflags! definition, D declaration, E expression, L let bound to a test, U use of such a "
+                   "variable, A call argument, S struct literal field",
+          "flag_tests": len(gates),
+          "flag_tests_by_flag": dict(sorted(Counter(f for it in gates for f in it["flags"] if not f.endswith("()")).items())),
+          "samples": ["src/%s.rs:%d %s [%s]: %s" % (it["file"], it["line"], it["fn"], ",".join(it["flags"]), it["text"][:160])
+                      for it in (gates[:2] + items[:1])]}
+    if expected is not None and not new and not gone:
+        return st, None
+    if expected is None:
+        what = "Properties/C02.v has no theorem C02_gate_inventory"
+    else:
+        what = ("the places where %s consults or constructs an Extensions value differ from the list of "
+                "C02_gate_inventory (gates the gate lemmas of C02 do not know, or a gate that reads another flag):\n"
+                % os.path.join(common.REPO, "src")
+                + "".join("  + in the source, not in the theorem: %s\n" % x for x in new)
+                + "".join("  - in the theorem, not in the source: %s\n" % x for x in gone)).rstrip("\n")
+    return st, (what, {"kind": "gate-inventory", "new": new, "gone": gone,
+                       "unchecked": "rendering of every extension gate of src/**/*.rs by a gate of Model/Parser.v / "
+                                    "Model/Analysis.v (Model/GateMap.v table) <-> the source"})
+
+
 def run(rep, tier, seed):
     rng = random.Random(seed)
+    inv_stats, inv_change = gate_inventory()
     paths = pc.prepare()
     env = paths["gen"]["ext"]
     sets = ext_sets(env)
@@ -368,6 +408,9 @@ def run(rep, tier, seed):
                   "correspondence Model/Lexer.v, Model/Parser.v <-> src/lexer, src/parser under all %d sets; the "
                   "analysis pass (INLINE_QUANTITIES, MODES and ADVANCED_UNITS checks of event_consumer.rs) is "
                   "covered by the monitor only" % len(sets))
+    if inv_change is not None and not hits:
+        common.log("  " + inv_change[0])
+        rep.violation(inv_change[0], inv_change[1], found_input=False)
     if len(sets) != 192:
         rep.violation("the eight flags of src/lib.rs give %d distinct sets, not 192" % len(sets),
                       {"sets": sets, "bits": {k: env[k] for k in FLAGS}}, found_input=False)
@@ -420,6 +463,7 @@ def run(rep, tier, seed):
         "correspondence_cases": lev_cases, "correspondence_disagreements": len(dis),
         "correspondence_sets_covered": len(set(e for ch, inp in zip(chunks, by_chunk) if inp for e in ch)),
         "exhaustive": False,
+        "gate_inventory": inv_stats,
     })
     if reading_mismatch:
         common.log("C02: %d core recipes read differently from the generator's expectation (same under all sets; "
@@ -430,20 +474,32 @@ def run(rep, tier, seed):
         "generated recipes are run on the debug build, the string enumeration on the release build",
         "the 192 sets are computed in Python from the bit values parsed out of src/lib.rs and, independently, in Coq "
         "(C02_subsets_192 over the regenerated Gen/ExtBits.v)",
+        "the inventory of extension gates is a token-level scan of the non-test code of src/**/*.rs (identifiers Extensions / "
+        "extensions / extension, Self inside the bitflags! block and impl Extensions; operand around each mention, call "
+        "argument, struct literal field, let binder and the statements using the bound variable - one step, no data flow): a "
+        "set copied into a differently named variable is pinned at the copy, not at its later uses; which model gate "
+        "renders an entry (Model/GateMap.v) is read off the source by hand",
     ]
 
 
 def setup():
+    gen_gates.regenerate()
     pc.prepare()
     common.build_harness(["c02"])
     common.build_harness(["c02"], release=True)
+    common.build_coq(["Properties/C02.vo"])
 
 
 def replay(rp):
     r = rp["replay"]
     if "input_hex" not in r:
-        print("nothing to replay: %s" % rp.get("what"))
-        return 1
+        # a broken obligation / a changed gate inventory without a failing input: rebuild the obligations
+        st, change = gate_inventory()
+        audit = common.audit_property_file(PID)
+        print("gate inventory: %d sites, new %s, gone %s" % (st["sites"], st["new"], st["gone"]))
+        print("obligations: %d/%d %s" % (audit["discharged"], audit["obligations"], "; ".join(audit["failed"])))
+        print("what was reported: %s" % rp.get("what"))
+        return 0 if audit["ok"] and change is None else 1
     exe = os.path.join(common.build_harness(["c02"]), "c02")
     line = "%s %s %s f\n" % (r["input_hex"], r.get("conv", "b"), ",".join(str(e) for e in r["sets"]))
     p = subprocess.run([exe, "-"], input=line, text=True, stdout=subprocess.PIPE)
